@@ -379,6 +379,10 @@ class _StubMatcher(object):
     def block_min_length(self):
         return self._bml
 
+    def block_max_length(self):
+        # (not used by the shipped scorers; any value not below the current length)
+        return self._bml + 1000
+
 
 _MODELS = [("BM25F", lambda B, K1, B2: scoring.BM25F(B=B, K1=K1)), ("BM25F(t_B)", lambda B, K1, B2: scoring.BM25F(B=B, K1=K1, t_B=B2)),
            ("TF_IDF", lambda B, K1, B2: scoring.TF_IDF()), ("Frequency", lambda B, K1, B2: scoring.Frequency())]
@@ -609,7 +613,9 @@ def _compose_check(ki, pa, pb, concrete=False, rep=None, nocontract=False):
         if e is not None:
             model.append((d, e))
     saved = _binary.__dict__.get("max", None)
+    saved_min = _binary.__dict__.get("min", None)
     _binary.max = _zmax
+    _binary.min = lambda *xs: _zmax(*[0 - x for x in (xs[0] if len(xs) == 1 else xs)]) * -1
     try:
         m = mk(a, b)
         i = 0
@@ -650,6 +656,10 @@ def _compose_check(ki, pa, pb, concrete=False, rep=None, nocontract=False):
             del _binary.max
         else:
             _binary.max = saved
+        if saved_min is None:
+            del _binary.min
+        else:
+            _binary.min = saved_min
     return None
 
 
@@ -659,7 +669,7 @@ def _compose_check(ki, pa, pb, concrete=False, rep=None, nocontract=False):
              "whoosh.matching.wrappers.RequireMatcher", "whoosh.matching.binary.AndNotMatcher", "whoosh.matching.binary.AndMaybeMatcher",
              "whoosh.matching.wrappers.WrappingMatcher", "whoosh.matching.binary.AdditiveBiMatcher.block_quality", "whoosh.matching.binary.AdditiveBiMatcher.max_quality"],
       outside="skip_to_quality/replace with a symbolic threshold (their branches compare solver terms; decided with threshold codes on real segments by c12_bounds_*), float rounding",
-      stubs=["leaves: a Matcher subclass with concrete ids and z3-real score/block_quality/max_quality", "builtin max inside whoosh.matching.binary -> z3 If (DisjunctionMax)"])
+      stubs=["leaves: a Matcher subclass with concrete ids and z3-real score/block_quality/max_quality", "builtins max/min inside whoosh.matching.binary -> z3 If (DisjunctionMax)"])
 def c12_compose_bounds(rep):
     bad = 0
     n = 0
